@@ -234,6 +234,7 @@ func runC17(e *Engine, r *Report) {
 	// ---- deadlines keep advancing and expire (shared with C12)
 	c17Tables(e, r)
 	ruleMatchAck(e, r, tbl)
+	ruleSnapshotStatusReported(e, r)
 }
 
 // c17Tables: node.tick advances every table clock on every path; gc reachable.
